@@ -24,7 +24,7 @@ CXX       := $(CXX_$(FLAVOR))
 
 OPT_plain := -O1 -g1
 OPT_san   := -O1 -g1 -fsanitize=address,undefined -fno-sanitize-recover=undefined -fno-omit-frame-pointer -DVSIM_SAN=1
-OPT_cov   := -O0 -g1 --coverage
+OPT_cov   := -O0 -g1 --coverage -DVSIM_COV=1
 OPT       := $(OPT_$(FLAVOR))
 
 # as shipped: RelWithDebInfo => NDEBUG (DESIGN.md section 6)
